@@ -279,5 +279,5 @@ func (*parser).checkAlias
 func (*parser).alias [C07]
   requires wfCur(p)
   callsite NewRange requires elemIndex(arg0) <= elemIndex(arg1)
-  loop 0 invariant wfCur(p) && p.cur >= start
+  loop 0 invariant rangeindex0 >= 0 ==> p.cur >= start
 @*/
